@@ -87,7 +87,7 @@ func (v *Vue) evalSlot(ctx VueContext, node *html.Node, slotScope *SlotScope) ([
 		}
 
 		// Evaluate the binding value
-		val, err := v.exprEval.Eval(attr.Val, ctx.stack.EnvMap())
+		val, err := v.exprEval.Eval(attr.Val, v.exprEnv(ctx, attr.Val))
 		if err == nil && val != nil {
 			slotProps[propName] = val
 		}
